@@ -841,6 +841,8 @@ def c13():
         big.append(gen.ro_program(rng, "ro-bigsec-%d" % i, cfg, bps, 25, end_setup="unmount" if unknown else "abandon",
                                   poke=[[bps + 488, [255, 255, 255, 255]]] if unknown else None, end=rng.choice(["unmount", "dropfs"])))
     res.append(("ro-bigsector", core.campaign("ro-bigsector", big, wd)))
+    # volumes written by someone else: entries with the read-only / hidden / system attributes, read on a later day
+    res.append(("ro-foreign", core.campaign("ro-foreign", [gen.ro_foreign_program(rng, "ro-foreign-%d" % i, [12, 16, 32][i % 3]) for i in range(scale(18, 180))], wd)))
     core.finish("C13", LEVEL, res, None, t0,
                 "populated FAT12/16/32 volumes (clean, abandoned-dirty, FSInfo count/hint unknown, foreign status bits), then sessions of non-mutating "
                 "calls only; TLC checks that no device write is issued (FSInfo exemption after statistics without a usable count)",
@@ -1212,6 +1214,8 @@ def c10():
     for i, p in enumerate(own):
         if i % 2 and p["cfg"]["vol"].get("size", 1 << 40) <= (40 << 20):     # formatted over old data: every table copy must be initialised
             p["cfg"] = dict(p["cfg"], vol=dict(p["cfg"]["vol"], prefill=[0xD1, 0xFF, 0x01, 0xE5][i // 2 % 4]))
+        if i % 3 == 0:      # every legal media descriptor (0xF0 removable, 0xF8..0xFF): entry 0 of every copy repeats it
+            p["cfg"] = dict(p["cfg"], vol=dict(p["cfg"]["vol"], media=[0xF0, 0xF9, 0xFF, 0xF8, 0xF0][i // 3 % 5]))
     res.append(("own", core.campaign("own", own, wd)))
     core.finish("C10", LEVEL, res, None, t0,
                 "histories on builder volumes with 1, 2 and 3 table copies, mirroring on and off with each active copy, FAT32 high nibbles set in used and "
@@ -1332,6 +1336,9 @@ def c19():
     specs = [{"id": "f-dirs-%d" % (i // 100), "base": gen.K("K3")["vol"], "dirs": dirs[i:i + 100]} for i in range(0, len(dirs), 100)]
     for feat in ("noalloc", "nounicode"):
         res.append(("dirs-" + feat, core.campaign("dirs-" + feat, specs, wd, feat=feat, spec="TraceDirDecode", mode="dirs")))
+    # ... and pairwise: where the one specification leaves a choice (a complete run behind an orphaned beginning may or may not be used),
+    # the builds must still make the SAME choice
+    res.append(("dirs-pairs-noalloc", core.feature_pairs("dirs-pairs-noalloc", specs, wd, "noalloc", mode="dirs")))
     programs = sum(r.programs for _, r in res)
     disagreements = sum(len(r.viol) for _, r in res)
     core.finish("C19", "translation_validation", res, None, t0,
